@@ -18,11 +18,14 @@ def strip_truth(lines):
     return out, fails
 
 
-def gc_compare(scripts, truth=True):
+def gc_compare(scripts, truth=True, counters=True):
     """scripts: list of list-of-ops. Returns dict with disagreements and truth failures (per script index)."""
     text = "".join("\n".join(s) + "\n---\n" for s in scripts)
     hl, ml, rc, herr = run_pair("gc", text, harness_env={"GC_TRUTH": "1"} if truth else None)
     hl, fails = strip_truth(hl)
+    if not counters:
+        # the trace()/callback counters are the subject of C16 only
+        hl = [re.sub(r" C:\d+/\d+", "", l) for l in hl]; ml = [re.sub(r" C:\d+/\d+", "", l) for l in ml]
     lines_in = text.split("\n")
     groups = split_scripts(lines_in[:-1] if lines_in[-1] == "" else lines_in, hl, ml)
     # map line index -> script index
@@ -77,7 +80,7 @@ def check_c08(tier, seed):
     for i in range(nrand):
         scripts.append(gcgen.random_history(rng, max_obj=rng.choice([2, 3, 4, 6]), max_ops=rng.choice([12, 25, 40]),
                                             malformed=(i % 10 == 9)))
-    res = gc_compare(scripts)
+    res = gc_compare(scripts, counters=False)
     distinct = len({tuple(s) for s in scripts if gcgen.is_nontrivial(s)})
     cov.update(evaluations=len(scripts), distinct_nontrivial=distinct,
                rule="random collector histories over <=6 synthetic objects (10% with contract-violating tedge/oedge lines) + corpus; "
@@ -95,7 +98,8 @@ def check_c08(tier, seed):
             st = json.loads(out.strip().replace("None", "null")) if rc == 0 else {"error": err[-300:]}
             with open(sp, "rb") as f:
                 rc2, mout, merr = run([DRIVER, "gc"], stdin=f.read(), timeout=3000)
-            same = (rc2 == 0 and mout == open(op).read())
+            strip = lambda t: re.sub(r" C:\d+/\d+", "", t)
+            same = (rc2 == 0 and strip(mout) == strip(open(op).read()))
             st.update(nobj=nobj, length=ln, model_equal=same)
             exhaustive.append(st)
             if not same:
